@@ -3,6 +3,8 @@ module verifharness
 go 1.23.7
 
 require (
+	github.com/beevik/etree v1.3.0
+	github.com/russellhaering/goxmldsig v1.4.0
 	github.com/sirupsen/logrus v1.8.1
 	github.com/zitadel/saml v0.0.0
 	golang.org/x/net v0.34.0
@@ -10,14 +12,12 @@ require (
 
 require (
 	github.com/amdonov/xmlsig v0.1.0 // indirect
-	github.com/beevik/etree v1.3.0 // indirect
 	github.com/felixge/httpsnoop v1.0.3 // indirect
 	github.com/google/uuid v1.6.0 // indirect
 	github.com/gorilla/handlers v1.5.2 // indirect
 	github.com/gorilla/mux v1.8.1 // indirect
 	github.com/jonboulle/clockwork v0.2.2 // indirect
 	github.com/muhlemmer/httpforwarded v0.1.0 // indirect
-	github.com/russellhaering/goxmldsig v1.4.0 // indirect
 	github.com/zitadel/logging v0.5.0 // indirect
 	golang.org/x/exp v0.0.0-20230817173708-d852ddb80c63 // indirect
 	golang.org/x/sys v0.29.0 // indirect
